@@ -24,7 +24,7 @@ ASSUMPTIONS = ['bodies are block-closed (fences closed, no raw HTML blocks) and 
 
 HOSTILE = ['alpha', 'beta & gamma', '<tag>', '"q"', "it's", 'a*b*', '`c<d`', 'x\ty', 'é中', '[l](u)', '1 < 2 > 0', '&amp;', '&#10;', '**s**',
            '~sub~', '^sup^', '\\(m\\)', '$x$', 'http://a.b/?x=1&y=2', ']]>', '<!-- c -->'.replace('<!--', '< !--'), "'single'", 'tab\there', '\u00a0nbsp', 'emoji 😀']
-TITLES = ['Alpha', 'Beta', 'x & y', '<T>', '"Q"', "o'k", 'é中', 'a-b', 'C3', 'Tab\tbed', '1 < 2', 'A &amp; B']
+TITLES = ['Alpha', 'Beta', 'x & y', '<T>', '"Q"', "o'k", 'é中', 'a-b', 'C3', 'Tab\tbed', '1 < 2', 'A &amp; B', 'x ~>', 'y {~~a~>']
 CFG = gdoc.Cfg(words=st.sampled_from(HOSTILE), inlines=['t', 'em', 'code'], blocks=['para', 'hr', 'fence', 'icode', 'quote', 'list', 'table'],
                code=st.sampled_from(['x', 'a<b', 'x & y', '"q"']), codelines=st.sampled_from(['code <line> & "x"', 'tab\tin code', '*lit*']), max_blocks=3)
 
@@ -44,7 +44,7 @@ def strategy(tier):
         'engine_leg': st.booleans(), 'ctl': st.sampled_from([0, 0, 0, 1, 2, 3]),
         'preamble': st.one_of(st.just(None), gdoc.blocks(CFG)),
         'heads': st.lists(head, min_size=0, max_size=10),
-        'nested': st.booleans(), 'crlf': st.booleans(), 'final_nl': st.booleans(),
+        'nested': st.booleans(), 'crlf': st.booleans(), 'final_nl': st.booleans(), 'bare_end': st.booleans(),
     })
 
 
@@ -117,7 +117,10 @@ def build(case):
     if not case['final_nl']:
         src = src.rstrip('\n')
         if heads and len(src) < heads[-1]['note_start']:
-            src = src + '\n' * (heads[-1]['note_start'] - len(src))   # keep the heading line itself terminated
+            if case.get('bare_end') and src.count('\n') and not src.split('\n')[-1].startswith(('=', '-')):
+                heads[-1]['note_start'] = len(src)        # the document ends with the (ATX) heading line itself, unterminated
+            else:
+                src = src + '\n' * (heads[-1]['note_start'] - len(src))   # keep the heading line itself terminated
     # convert to bytes with the chosen line ending and recompute offsets
     def conv(s):
         return s.replace('\n', nl).encode('utf-8')
